@@ -102,11 +102,10 @@ Check ==
     [] Ev.t = "compact.candidates" ->
          IF ~MetasEq(tables, Ev.tables) THEN "candidates-metadata"
          ELSE IF ~(Ev.selected = <<>> \/ IsRun(tables, Ev.selected)) THEN "selection-not-a-gap-free-run"
-         ELSE IF Ev.selected # RunGens(tables, [thr |-> 0, maxSize |-> Ev.maxSize, ratio |-> Ev.ratio]) THEN "selection-differs-from-rule"
-         ELSE "ok"
+         ELSE "ok"     \* (which gap-free run the options select is policy, not property: see Note)
     [] Ev.t = "compact.select" ->
          IF Ev.selected # csel THEN "select-differs-from-candidates"
-         ELSE IF Ev.compacting # (Len(csel) > Ev.threshold) THEN "threshold-rule" ELSE "ok"
+         ELSE "ok"     \* (when a selection is worth compacting is policy: see Note)
     [] Ev.t = "compact.merged" ->
          IF Ev.inputs # csel THEN "merged-inputs" ELSE IF csel = <<>> THEN "merged-nothing"
          ELSE IF Ev.replacement # csel[1] THEN "replacement-not-oldest-input" ELSE "ok"
@@ -138,7 +137,7 @@ Check ==
     \* every step the model enabled must complete on the real code
     [] Ev.t = "schedget" -> IF Ev.exp # Ev.got THEN "get-reply-differs-from-model-schedule" ELSE "ok"
     [] Ev.t = "schedstuck" -> "model-enabled-step-does-not-complete"
-    [] Ev.t \in {"rotwal", "note", "scheddone"} -> "ok"
+    [] Ev.t \in {"rotwal", "note", "scheddone", "libobs"} -> "ok"
     [] OTHER -> "unknown-event"
 
 \* ------------------------------------------------------------------ per event: effect on the specification state
@@ -209,6 +208,11 @@ Effect ==
 \* a pending Get may observe every value the reference read takes while it is pending
 Observe == TRUE
 
+\* deviations from the selection POLICY of the pinned code (which run the size limit / ratio select, when the file threshold lets it run): C06 only asks
+\* for a gap-free run and unchanged reads, so these are notes in the verdict list, never verdicts
+Note == IF Ev.t = "compact.candidates" /\ Ev.selected # RunGens(tables, [thr |-> 0, maxSize |-> Ev.maxSize, ratio |-> Ev.ratio]) THEN "note:selection-differs-from-rule"
+        ELSE IF Ev.t = "compact.select" /\ Ev.compacting # (Len(csel) > Ev.threshold) THEN "note:threshold-rule"
+        ELSE ""
 Step ==
   /\ l <= Len(Trace) /\ l' = l + 1
   /\ IF Ev.t = "reset" THEN ResetState /\ skip' = FALSE /\ cs' = Ev.case /\ UNCHANGED <<bad, nok>>
@@ -218,7 +222,8 @@ Step ==
           THEN /\ bad' = Append(bad, [case |-> cs, line |-> l, clause |-> c, ev |-> ToString(Ev)])
                /\ skip' = TRUE
                /\ UNCHANGED <<mem, imm, queue, fpc, tables, gen, refl, csel, cout, ccfg, cfg, model, phase, pend, credit, seen, nok, cs>>
-          ELSE /\ Effect /\ nok' = nok + 1 /\ UNCHANGED <<bad, skip, cs>>
+          ELSE /\ Effect /\ nok' = nok + 1 /\ UNCHANGED <<skip, cs>>
+               /\ bad' = IF Note = "" THEN bad ELSE Append(bad, [case |-> cs, line |-> l, clause |-> Note, ev |-> ToString(Ev)])
 
 \* after every conforming step, widen the candidate sets of the pending Gets by the current reference read
 Widen ==
